@@ -385,6 +385,29 @@ func runTrialOn(sc *script, cache cachex.Cache, start time.Time) string {
 				emit("rC,%d,%d", i, stamp())
 				finished[i] = true
 				mu.Unlock()
+			case "X":
+				// a call the cache rejects: Load / Get2 / Set with a key of an unhashable type (outside every property's
+				// quantifier; it panics on the caller's goroutine, the caller recovers). Logged like a collection: not an
+				// event of the cache. What the properties say about the OTHER calls of the script still holds.
+				mu.Lock()
+				emit("c,%d,%d", i, stamp())
+				mu.Unlock()
+				bad := []byte("user:42")
+				func() {
+					defer func() { _ = recover() }()
+					switch a.k % 3 {
+					case 0:
+						cache.Load(bad, func(any) (any, error) { return nil, nil })
+					case 1:
+						cache.Get2(bad)
+					default:
+						cache.Set(bad, 1, nil)
+					}
+				}()
+				mu.Lock()
+				emit("rC,%d,%d", i, stamp())
+				finished[i] = true
+				mu.Unlock()
 			case "D":
 				mu.Lock()
 				emit("c,%d,%d", i, stamp())
